@@ -56,7 +56,8 @@ def lp_mechanism(ev: P.Event, want: bool) -> str:
                     return "ulp-compare"
         except Exception:  # noqa: BLE001
             pass
-    return "logic:answered-%s-want-%s" % (not want, want)
+    audit = M.lp_audit(ev.walk())
+    return "logic:answered-%s-want-%s%s" % (not want, want, (":" + audit) if audit else "")
 
 
 def judge_list_refines(ctx: Ctx, ev: P.Event, case: Any, exact_ok: bool) -> None:
